@@ -578,6 +578,26 @@ def _conservation(conns, conn_edges, imp, before_leaves, root):
                     "are never written back again" % conn_edges[c.f["_id"]])
     if after_leaves != before_leaves:
         return "the tree's terminals were at %s, afterwards at %s" % ([(str(a), str(b)) for a, b in before_leaves], [(str(a), str(b)) for a, b in after_leaves])
+    # a connector is one junction-free path: along the tree its identity changes at junctions only
+    seen, stack = set(), [root]
+    while stack:
+        n = stack.pop()
+        if id(n) in seen:
+            continue
+        seen.add(id(n))
+        es = n.f["edges"].items
+        if n.f.get("junction") is None and len(es) >= 2:
+            cs = {id(e.f["conn"]) for e in es}
+            if len(es) > 2:
+                return "the node at (%s,%s) has %d edges but no junction" % (n.f["point"].f["x"], n.f["point"].f["y"], len(es))
+            if len(cs) != 1:
+                return ("at the plain node (%s,%s) the connector changes (%s) although there is no junction: one of them no longer reaches a junction "
+                        "and the route written back for it stops short" % (n.f["point"].f["x"], n.f["point"].f["y"],
+                                                                           sorted(str(e.f["conn"].f.get("_id")) for e in es)))
+        for e in es:
+            for end in (e.f["ends"].f["first"], e.f["ends"].f["second"]):
+                if end is not None:
+                    stack.append(end)
     return None
 
 
@@ -631,9 +651,14 @@ def rule_zero_length(chk, prog):
                   "where the far node of a candidate common edge is the TERMINAL of a connector, and on the genuine common-stretch cases, with and "
                   "without major changes: the same conservation of connectors and terminal positions; a junction is never moved onto a terminal", floor=8)
     fm = prog.fn("Avoid::HyperedgeImprover::moveJunctionAlongCommonEdge")
-    for name, spec, conn_edges in _MJ_TREES:
+    variants = [(n_, s_, c_, None) for n_, s_, c_ in _MJ_TREES]
+    variants.append((_MJ_TREES[3][0] + "; the connector that stays behind has a fixed route", _MJ_TREES[3][1], _MJ_TREES[3][2], "J-b"))
+    for name, spec, conn_edges, fixed_edge in variants:
         for major in (False, True):
             nodes, edges, conns, imp = _improver_scene(prog, spec, conn_edges, major)
+            for e in edges:
+                if "-".join(e.f["_name"]) == fixed_edge:
+                    e.f["hasFixedRoute"] = True
             before_leaves, _ = _tree_state(nodes["J"])
             it = _improver_interp(prog)
             inst = "%s%s" % (name, ", major changes allowed" if major else "")
@@ -701,11 +726,80 @@ def rule_shift_terminal(chk, prog):
                 (r.bad if bad else r.ok)(inst, fb.where(), bad or "")
 
 
+def rule_merge_far_end(chk, prog):
+    r = chk.rule("MERGE-KEEPS-FAR-END", "JunctionRef::removeJunctionAndMergeConnectors interpreted for a two-connector junction whose second connector "
+                 "ends at a shape pin, at ANOTHER JUNCTION, or at a free point, with either connector listed first: the surviving connector's "
+                 "junction end is re-attached to exactly what the deleted connector's far end was attached to (same kind, same object, same pin "
+                 "class), the other connector and the junction are handed to the router for deletion", floor=6)
+    fn = prog.fn("Avoid::JunctionRef::removeJunctionAndMergeConnectors")
+
+    def pt(x, y):
+        return P(prog, x, y)
+    for kind in ("pin", "junction", "point"):
+        for swap in (False, True):
+            J = default_obj(prog, "Avoid::JunctionRef", {"m_id": 5})
+            K = default_obj(prog, "Avoid::JunctionRef", {"m_id": 6})
+            S = default_obj(prog, "Avoid::ShapeRef", {"m_id": 7})
+            c1 = default_obj(prog, "Avoid::ConnRef", {"m_id": 1})
+            c2 = default_obj(prog, "Avoid::ConnRef", {"m_id": 2})
+
+            def ce(conn, typ, anchor, cls, endtype):
+                return default_obj(prog, "Avoid::ConnEnd", {"m_type": typ, "m_anchor_obj": anchor, "m_connection_pin_class_id": cls, "m_conn_ref": conn,
+                                                            "m_point": pt(1, 2), "m_directions": 15, "m_active_pin": None, "_endtype": endtype})
+            e1 = ce(c1, 2, J, 2147483646, 1)
+            e2 = ce(c2, 2, J, 2147483646, 1 if not swap else 2)
+            other = {"pin": ce(c2, 1, S, 3, 2), "junction": ce(c2, 2, K, 2147483646, 2), "point": ce(c2, 0, None, 2147483647, 2)}[kind]
+            if swap:
+                other.f["_endtype"] = 1
+                c2.f["m_dst_connend"], c2.f["m_src_connend"] = e2, other
+            else:
+                c2.f["m_src_connend"], c2.f["m_dst_connend"] = e2, other
+            c1.f["m_src_connend"], c1.f["m_dst_connend"] = e1, ce(c1, 0, None, 2147483647, 2)
+            J.f["m_following_conns"] = Vec([e1, e2], "Avoid::ConnEnd *")
+            J.f["m_router"] = default_obj(prog, "Avoid::Router", {})
+            mods, dels, delj = [], [], []
+            it = Interp(prog, Oracle([]))
+            it.vhooks["Avoid::Router::modifyConnector"] = lambda it_, recv, args, m=mods: m.append(args)
+            it.vhooks["Avoid::Router::deleteConnector"] = lambda it_, recv, args, d=dels: d.append(args[0])
+            it.vhooks["Avoid::Router::deleteJunction"] = lambda it_, recv, args, d=delj: d.append(args[0])
+            it.vhooks["Avoid::ConnEnd::endpointType"] = lambda it_, recv, args: recv.f["_endtype"]
+            it.vhooks["Avoid::ConnEnd::position"] = lambda it_, recv, args: recv.f["m_point"]
+            inst = "far end at a %s%s" % ({"pin": "shape pin", "junction": "second junction", "point": "free point"}[kind], ", far end is the source end" if swap else "")
+            r.count()
+            try:
+                res = it.call(fn, J, None, None, arg_values=[])
+            except Unsupported as e:
+                raise AnalysisBroken("removeJunctionAndMergeConnectors outside the interpreter subset (%s): %s" % (inst, e))
+            except AssertFail as e:
+                r.bad(inst, fn.where(), "assertion fails: %s" % e)
+                continue
+            bad = None
+            if len(mods) != 1 or mods[0][0] is not c1 or mods[0][1] != 1:
+                bad = "the surviving connector's junction end is not the one that is modified"
+            else:
+                got = mods[0][2]
+                if not isinstance(got, Obj) or got.f.get("m_type") != other.f["m_type"] or got.f.get("m_anchor_obj") is not other.f["m_anchor_obj"] \
+                        or got.f.get("m_connection_pin_class_id") != other.f["m_connection_pin_class_id"]:
+                    kinds = {0: "free point", 1: "shape pin", 2: "junction"}
+                    bad = "the merged connector is re-attached to a %s (object %s), the deleted connector ended at a %s (object %s): the hyperedge " \
+                          "loses that attachment" % (kinds.get(got.f.get("m_type") if isinstance(got, Obj) else None, "?"),
+                                                     (got.f.get("m_anchor_obj").f.get("m_id") if isinstance(got, Obj) and got.f.get("m_anchor_obj") is not None else None),
+                                                     kinds[other.f["m_type"]], other.f["m_anchor_obj"].f["m_id"] if other.f["m_anchor_obj"] is not None else None)
+            if bad is None and (len(dels) != 1 or dels[0] is not c2):
+                bad = "the second connector is not handed to Router::deleteConnector"
+            if bad is None and (len(delj) != 1 or delj[0] is not J):
+                bad = "the junction is not handed to Router::deleteJunction"
+            if bad is None and res is not c1:
+                bad = "the merged connector is not returned"
+            (r.bad if bad else r.ok)(inst, fn.where(), bad or "")
+
+
 def run(chk):
     prog = chk.load()
     chk.guard(rule_writeback, chk, prog, chk.tier)
     chk.guard(rule_dummy_flagged, chk, prog)
     chk.guard(rule_zero_length, chk, prog)
     chk.guard(rule_shift_terminal, chk, prog)
+    chk.guard(rule_merge_far_end, chk, prog)
     chk.guard(rule_reroute_lists, chk, prog)
     chk.guard(rule_object_lists, chk, prog)
